@@ -494,6 +494,11 @@ func (r *hsRun) encodeHeaders(st *hsStream) []byte {
 	if op.decl >= 0 {
 		regular = append(regular, kv{"content-length", strconv.Itoa(op.decl)})
 	}
+	if op.post && op.bad == "" && (r.p.focus == "C15" || r.p.focus == "C16") && st.idx%3 == 2 {
+		// the server answers the handler's first body read with 100 Continue -
+		// unless the stream is gone by then
+		regular = append(regular, kv{"expect", "100-continue"})
+	}
 	if op.extraHdr > 0 && !(strings.HasPrefix(op.bad, "bad-") && strings.HasSuffix(op.bad, "-value") && op.bad != "bad-value") {
 		// (An invalid field that is FOLLOWED by a CONTINUATION frame is answered with
 		// a connection error by design - the Framer stops tracking the header list
@@ -1057,7 +1062,10 @@ func (r *hsRun) onServerFrame(f *vmFrame) *vs.Violation {
 			if f.HdrErr != nil {
 				return vs.Violf("C14", "response_hpack", "srv:hpack", "response header block does not decode: %v", f.HdrErr)
 			}
-			if !st.respHdr {
+			if s, ok := vmField(f.Fields, ":status"); ok && len(s) == 3 && s[0] == '1' && !st.respHdr {
+				// informational response (100 Continue): the final one is still to come
+				vs.G.Inc("probe.informational_response")
+			} else if !st.respHdr {
 				st.respHdr = true
 				if s, ok := vmField(f.Fields, ":status"); ok {
 					st.respStatus, _ = strconv.Atoi(s)
@@ -1129,7 +1137,9 @@ func (r *hsRun) check() *vs.Violation {
 		return r.viol
 	}
 	if r.srvPanic != nil {
-		return vs.Violf("C16", "serve_panic", "srv:serve_panic", "panic on the server's connection goroutine: %v", r.srvPanic)
+		// (filed under the property being checked, as a crash of the test process
+		// is: a panic of the connection goroutine ends every judgement of the run)
+		return vs.Violf(r.p.focus, "serve_panic", "srv:serve_panic", "panic on the server's connection goroutine: %v", r.srvPanic)
 	}
 	for {
 		f := r.mon.next()
@@ -1379,7 +1389,9 @@ func (r *hsRun) final(sim *vs.Sim, harness *string) *vs.Violation {
 		return nil // inconclusive: step budget exhausted before the end state
 	}
 	if r.srvPanic != nil {
-		return vs.Violf("C16", "serve_panic", "srv:serve_panic", "panic on the server's connection goroutine: %v", r.srvPanic)
+		// (filed under the property being checked, as a crash of the test process
+		// is: a panic of the connection goroutine ends every judgement of the run)
+		return vs.Violf(r.p.focus, "serve_panic", "srv:serve_panic", "panic on the server's connection goroutine: %v", r.srvPanic)
 	}
 	if r.honest && (r.goAway || (r.srvClosed && !r.gracefulSent)) && r.goAwayCode != ErrCodeFlowControl {
 		// An honest client never gives the server a reason to end the connection.
